@@ -103,6 +103,7 @@ Plan parse_plan(const std::string &text) {
             p.o0 = kv.u64("o0", 0);
             p.ethpad = kv.u64("ethpad", 0);
             p.read0 = atof(kv.str("read0", "0").c_str());
+            p.clkgran = kv.u64("clkgran", 1);
         } else if (kv.op == "can") {
             CanW w;
             w.t = kv.u64("t");
@@ -447,6 +448,7 @@ void exec_plan(const std::string &text, bool verbose) {
     w.lat_lo = p.lat_lo; w.lat_hi = p.lat_hi; w.cost_lo = p.cost_lo; w.cost_hi = p.cost_hi;
     w.rxq_cap = p.qcap;
     w.can_read0_p = p.read0;
+    w.clock_gran = p.clkgran ? p.clkgran : 1;
     w.t_origin = 1700000000ULL * 1000000000ULL + (p.rseed % 1000000007ULL) * 1000ULL;
     w.now = w.t_origin;
     if (sim::g_shm) snprintf(sim::g_shm->context, sizeof sim::g_shm->context, "%s|%s|%s", p.prop.c_str(), p.scen.c_str(), p.mode_str().c_str());
